@@ -176,9 +176,30 @@ func registerEnvStubs() {
 		return Tuple{e.deepCopy(a[0], map[*Value]*Value{}), Iface{}}
 	}
 	externals["github.com/go-openapi/swag.ToDynamicJSON"] = func(e *Exec, c *frame, a []Value) Value {
-		e.run.noteStub("swag.ToDynamicJSON: returns an opaque empty JSON object (the harness's parameter schema accepts anything)")
 		e.mapSeq++
-		return Iface{T: types.NewMap(types.Typ[types.String], types.NewInterfaceType(nil, nil)), V: &Map{KT: types.Typ[types.String], VT: types.NewInterfaceType(nil, nil), id: e.mapSeq}}
+		any := types.NewInterfaceType(nil, nil)
+		out := &Map{KT: types.Typ[types.String], VT: any, id: e.mapSeq, noPerm: true}
+		if x, ok := a[0].(Iface); ok && x.T != nil && types.Identical(x.T, e.specType("Parameter")) {
+			// contract: the JSON object of a parameter holds its non-empty scalar members
+			e.run.noteStub("swag.ToDynamicJSON(parameter): the JSON object holding the parameter's non-empty name, in, type, format and true required members (iterated in key order)")
+			pst := x.T.Underlying().(*types.Struct)
+			ps := x.V.(Structure)
+			str := func(emb, f, key string) {
+				if v := e.strOf(fieldByName(ps, pst, emb, f)); v != "" {
+					e.mapSet(out, key, Iface{T: types.Typ[types.String], V: v})
+				}
+			}
+			str("ParamProps", "Name", "name")
+			str("ParamProps", "In", "in")
+			str("SimpleSchema", "Type", "type")
+			str("SimpleSchema", "Format", "format")
+			if r, ok := fieldByName(ps, pst, "ParamProps", "Required").(*Term); ok && r.conc() && r.b() {
+				e.mapSet(out, "required", Iface{T: types.Typ[types.Bool], V: tTrue})
+			}
+			return Iface{T: types.NewMap(types.Typ[types.String], any), V: out}
+		}
+		e.run.noteStub("swag.ToDynamicJSON: returns an opaque empty JSON object")
+		return Iface{T: types.NewMap(types.Typ[types.String], any), V: out}
 	}
 	externals[an+"SafeParamsFor"] = paramsFor
 	externals[an+"ParamsFor"] = paramsFor
